@@ -61,6 +61,10 @@ func rulesC01(c *Ctx) {
 						key := f.Name() + ":" + fld.Name()
 						if ctxKind != "" {
 							c.Ok(key, f, sel, "access to inFlightState.%s in %s", fld.Name(), ctxKind)
+						} else if f.heldLocal(sel)["Connection.stateMu"] && len(f.FieldWrites(f.Body, fld, true)) == 0 && pureRead(f, sel) {
+							// a snapshot (len, a comparison, a scalar) taken with the state lock held observes a consistent
+							// state and changes nothing, so none of updateInFlight's follow-up work is owed
+							c.Ok(key, f, sel, "read-only snapshot of inFlightState.%s with stateMu held", fld.Name())
 						} else {
 							c.Fail(key, f, sel, "inFlightState.%s accessed outside updateInFlight (struct comment: \"accessed only in updateInFlight\"); a racing reader/writer can see or create a half-updated call table", fld.Name())
 						}
